@@ -532,7 +532,7 @@ def run_conc(spec):
         reports = [pw.parts_for(ci, n0) for ci in range(len(rnd))]
         wire = []
         for ex in pw.w.net.log[n0:]:
-            if ex.netloc == pw.provider_netloc and ex.method == 'POST' and (b'/Set' in ex.request[:200] or b'/Context' in ex.request[:200]):
+            if ex.netloc == pw.provider_netloc and ex.method == 'POST':
                 body_ = request_body(ex)
                 if b'OperationHandleRef' in body_:
                     wire.append([ex.client, parse_response(ex)])
